@@ -136,9 +136,17 @@ fn write_value(world: &mut World, e: Entity, t: u32, n: u64) {
             // values from 100000 up stand for a name of that many characters (large payloads)
             em.insert(Name::new(if n >= 100_000 { "x".repeat(n as usize) } else { format!("{}", n) }));
         }
+        100 => {
+            // a GlobalTransform of the application's own (not what the companion fix would insert)
+            em.insert((GlobalTransform::from_xyz(n as f32, 0.0, 0.0), AppOwnedGlobal));
+        }
         _ => panic!("write {}", t),
     }
 }
+
+/// marks a GlobalTransform the scenario wrote itself
+#[derive(Component)]
+pub struct AppOwnedGlobal;
 
 fn read_values(e: &EntityRef) -> Vec<(u32, String)> {
     let mut v = vec![];
@@ -168,12 +176,16 @@ fn read_values(e: &EntityRef) -> Vec<(u32, String)> {
     }
     use bevy::pbr::{CascadeShadowConfig, Cascades, CascadesVisibleEntities, CubemapVisibleEntities};
     use bevy::render::primitives::{CascadesFrusta, CubemapFrusta, Frustum};
+    // GlobalTransform: its value is printed only when the application wrote it itself (marker set by the
+    // `write h 100 v` operation); what the companion fix inserted is printed as presence ("0")
+    if let Some(g) = e.get::<GlobalTransform>() {
+        v.push((100, if e.contains::<AppOwnedGlobal>() { format!("{}", g.translation().x as u64) } else { "0".to_string() }));
+    }
     let mut comp = |t: u32, has: bool| {
         if has {
             v.push((t, "0".to_string()));
         }
     };
-    comp(100, e.contains::<GlobalTransform>());
     comp(101, e.contains::<ViewVisibility>());
     comp(102, e.contains::<InheritedVisibility>());
     comp(103, e.contains::<CubemapFrusta>());
